@@ -10,12 +10,16 @@
    Part 0: translation of the expansion point, linearity of [pderivn].
    Part 1: [BP], the coefficient list (about 0) of the per-interval Cox–de Boor
            polynomial [Bk]; the pieces of a generated spline are translates.
-   Part 2: the block of indices of a value in a sorted knot vector, [mult].
-   Part 3: continuity: the values of adjacent per-interval polynomials at the
-           common grid point (d = 0).
-   Part 4: the B-spline derivative formula.
-   Part 5: the main theorem [gen_smooth] and its corollaries.
-   Finally: examples over the rationals, including sharpness. *)
+   Part 2: the block [a, b) of indices of a value in a sorted knot vector, [mult].
+   Part 3: abstract families of one-sided values at a knot: continuity from the
+           recursion ([V_cont]), smoothness from a derivative formula ([D_smooth]).
+   Part 4: the B-spline derivative formula ([BP_deriv], [BP_deriv_peq]).
+   Part 5: the main theorem [gen_smooth]; the version with the multiplicity
+           local to the function ([gen_smooth_local]); the two ends of the grid
+           ([gen_smooth_first], [gen_smooth_last], [gen_smooth_all]);
+           [gen_continuous]; [B_derivative_formula] on the stored pieces.
+   Finally: boolean checkers and examples over the rationals, including
+           sharpness (a jump in the derivative of order p - mult + 1). *)
 From Coq Require Import List Arith NArith ZArith Bool Lia ZifyBool ZifyN Field Ring.
 From BSpl Require Import ListAux Scalar Outcome Support Poly Spline Ops Generator
   Spec Spec_Ops Spec_Gen
